@@ -24,6 +24,8 @@ RMW = ('exchange', 'compare_exchange_strong', 'compare_exchange_weak', 'fetch_su
 class WhenWalker(pathwalk.Walker):
     loop_bound = 1
     max_paths = 20000
+    inline_helpers = True  # an election extracted into a private helper is still the election
+    no_inline = ('DoneImpl', 'Consume', 'ConsumeImpl', 'Set', 'SetCore', 'Impl', 'Register')
 
     def on_node(self, fn, n, st):
         k = n['k']
@@ -58,7 +60,7 @@ class WhenWalker(pathwalk.Walker):
             neg = not neg
             c = fn.sn(c['ch'][0])
         truth = taken != neg
-        for j in fn.descendants(c['i']):
+        for j in fn.deep_descendants(c['i']):  # through named locals: const auto old = w.fetch_sub(2); if (old != 2)
             m = fn.nodes[j]
             cn = m.get('cn', '')
             last = cn.split('::')[-1]
@@ -70,7 +72,7 @@ class WhenWalker(pathwalk.Walker):
             if last == 'SetCallback' and m['i'] == c['i']:
                 st.events.append(('registered', truth, m['i']))
             if cn == 'yaclib::when::Any::DoneImpl' and any(
-                    fn.nodes[d].get('cn', '').split('::')[-1] in RMW for d in fn.descendants(m['i'])):
+                    fn.nodes[d].get('cn', '').split('::')[-1] in RMW for d in fn.deep_descendants(m['i'])):
                 st.events.append(('election', 'DoneImpl(rmw)', truth, fn.loc(m)))
 
 
@@ -230,6 +232,32 @@ def check_count(ctx, fb, rule):
                            'combinator is created (a combinator with zero inputs never completes)')
 
 
+def compared_constant(f, i):
+    """the constant the value of expression i is compared with (== / !=), directly or through a single-assignment
+    local that holds it (`const auto old = x.fetch_sub(2); if (old != 2)`)"""
+    def cmp_parent(j):
+        par = f.parents.get(j)
+        while par is not None and f.nodes[par]['k'] in ('ImplicitCastExpr', 'ParenExpr'):
+            par = f.parents.get(par)
+        if par is not None and f.nodes[par]['k'] == 'BinaryOperator' and f.nodes[par]['op'] in ('==', '!='):
+            for c in f.nodes[par]['ch']:
+                v = f.sn(c).get('v') if f.sn(c) is not None else None
+                if v is not None and f.strip(c) != f.strip(j):
+                    return v
+        return None
+    v = cmp_parent(i)
+    if v is not None:
+        return v
+    for vid, init in f.single_defs.items():
+        if f.strip(init) == f.strip(i):
+            for n in f.own_nodes():
+                if n['k'] == 'DeclRefExpr' and n.get('id') == vid:
+                    v = cmp_parent(n['i'])
+                    if v is not None:
+                        return v
+    return None
+
+
 def check_lastfail(ctx, fb, rule):
     cls = [c for c in strategies(fb, ('yaclib::when::Any',)).items() if c[1][0].cta and c[1][0].cta[0] in (
         '2', 'yaclib::FailPolicy::LastFail')]
@@ -257,11 +285,7 @@ def check_lastfail(ctx, fb, rule):
                     cn = n.get('cn', '')
                     if cn.endswith('::fetch_sub') and n.get('args'):
                         sub = f.sn(n['args'][0]).get('v')
-                        par = f.parents.get(n['i'])
-                        while par is not None and f.nodes[par]['k'] in ('ImplicitCastExpr', 'ParenExpr'):
-                            par = f.parents.get(par)
-                        if par is not None and f.nodes[par]['k'] == 'BinaryOperator' and f.nodes[par]['op'] == '==':
-                            cmpv = f.sn(f.nodes[par]['ch'][1]).get('v')
+                        cmpv = compared_constant(f, n['i'])
                     if cn.endswith('::exchange') and n.get('args'):
                         val = f.sn(n['args'][0]).get('v')
             if f.n == 'DoneImpl':
